@@ -392,7 +392,7 @@ class Canon:
         if any(isinstance(x, (ast.Yield, ast.YieldFrom, ast.Await, ast.Global, ast.Nonlocal)) for x in ast.walk(h.node)):
             return None
         n_stmts = sum(1 for b in _strip_doc(h.node.body) for x in ast.walk(b) if isinstance(x, ast.stmt))   # (the docstring does not count)
-        if self._refs.get(name, 0) > 1 and n_stmts > (25 if self._refs.get(name, 0) == 2 else (6 if self._refs.get(name, 0) <= 4 else 3)):
+        if self._refs.get(name, 0) > 1 and n_stmts > (25 if self._refs.get(name, 0) == 2 else (10 if self._refs.get(name, 0) <= 4 else 3)):
             return None  # a helper shared by several callers is only written out when it is small
         return h
 
@@ -1447,6 +1447,19 @@ class _Small(ast.NodeTransformer):
                     for t, a_, b_ in zip(tg, v.body.elts, v.orelse.elts):
                         out.append(ast.copy_location(ast.Assign(targets=[t], value=ast.IfExp(test=copy.deepcopy(v.test), body=a_, orelse=b_), lineno=st.lineno), st))
                     continue
+            if isinstance(st, (ast.Expr, ast.Assign)) and isinstance(st.value, ast.Call):
+                # `f(a, **(dict() if c else dict(k=v)))`  ->  `if c: f(a) else: f(a, k=v)`   (optional keyword arguments chosen by a pure test)
+                kk = [k for k in st.value.keywords if k.arg is None and isinstance(k.value, ast.IfExp) and _is_pure(k.value.test, reads_ok=True)
+                      and _expand_kwargs([ast.keyword(arg=None, value=k.value.body)]) is not None and _expand_kwargs([ast.keyword(arg=None, value=k.value.orelse)]) is not None]
+                if len(kk) == 1:
+                    k0 = kk[0]
+                    variants = []
+                    for br in (k0.value.body, k0.value.orelse):
+                        c_ = copy.deepcopy(st)
+                        c_.value.keywords = [x for k in st.value.keywords for x in (_expand_kwargs([ast.keyword(arg=None, value=copy.deepcopy(br))]) if k is k0 else [copy.deepcopy(k)])]
+                        variants.append(c_)
+                    out.append(ast.copy_location(ast.If(test=k0.value.test, body=_Small._block([variants[0]]), orelse=_Small._block([variants[1]])), st))
+                    continue
             if isinstance(st, ast.Expr) and isinstance(st.value, ast.Call):
                 # `f(A if c else B, x + (p if c else q))`  ->  `if c: f(A, x + p) else: f(B, x + q)`   (several arguments chosen together by one pure test: two variants of the call)
                 inner = {id(y) for x in _walk_no_defs(st.value) if isinstance(x, (ast.ListComp, ast.SetComp, ast.DictComp, ast.GeneratorExp)) for y in ast.walk(x)}
@@ -1578,6 +1591,14 @@ class _Small(ast.NodeTransformer):
                     t_ = _SubstAll({p_.arg: a for p_, a in zip(la.args, n.args)})
                     t_._top = n
                     return self.visit(t_.visit(copy.deepcopy(n.func.body)))
+        # f(**dict(a=x)) / f(**{'a': x}) -> f(a=x)
+        if any(k.arg is None for k in n.keywords):
+            kws = []
+            for k in n.keywords:
+                one = _expand_kwargs([k]) if k.arg is None else [k]
+                kws.extend(one if one is not None else [k])
+            if len({k.arg for k in kws if k.arg is not None}) == len([k for k in kws if k.arg is not None]):
+                n.keywords = kws
         # f(*(a, b)) -> f(a, b)
         if any(isinstance(a, ast.Starred) and isinstance(a.value, (ast.Tuple, ast.List)) for a in n.args):
             args = []
